@@ -10,18 +10,18 @@ T=$(mktemp -d)
 trap 'rm -rf "$T"' EXIT
 (cd extract && go build -o "$T/extract" .)
 mkdir -p lean/CueVerif/Gen
-for g in $(python3 -c "import json;print(' '.join(sorted({g for p in json.load(open('props.json')).values() for g in p.get('gen',[])})))"); do
+for g in $(python3 -c "import json,glob;print(' '.join(sorted({g for f in glob.glob('props/C*.json') for g in json.load(open(f)).get('gen',[])})))"); do
   "$T/extract" -repo "$REPO" -gen "$g" > "$T/$g.lean"
   cmp -s "$T/$g.lean" "lean/CueVerif/Gen/$g.lean" || cp "$T/$g.lean" "lean/CueVerif/Gen/$g.lean"
 done
 MODS=$(python3 -c "
-import json,os
-ps=json.load(open('props.json'))
+import json,os,glob
 out=[]
-for p in sorted(ps):
-    out.append('CueVerif.Props.'+p)
+for f in sorted(glob.glob('props/C*.json')):
+    p=os.path.basename(f)[:-5]
+    out.append('CueVerif.Props.'+p); out.append('drv_'+p)
     if os.path.exists('lean/CueVerif/Bridge/'+p+'.lean'): out.append('CueVerif.Bridge.'+p)
 print(' '.join(out))")
-(cd lean && lake build $MODS driver)
+(cd lean && lake build $MODS)
 ./harness/build.sh "$T/h"
 echo setup ok
